@@ -125,6 +125,8 @@ class EpochRules:
                 backs = [e for e in p.events if e['kind'] == 'call' and e.get('name') == 'back' and e.get('obj') == lst and e['result'] == mw[0]['value']]
                 col = [e for e in p.events if e['kind'] == 'call' and e.get('callee') == self.F['CollectProtectedEpochs']['key']]
                 good = bool(backs) and bool(col) and col[0]['seq'] < backs[0]['seq']
+                if not good and col and mw[0]['value'] == col[0].get('result') and self.collect_returns_back():
+                    good = True     # the scan itself returns the last element of the list it built
             sink.emit('C16.MIN', 'ok' if good else 'violated', 'min epoch = last element of the list built in this call', self.loc(fw, mw[0]['line'] if mw else None),
                       'stores %s' % [show(e.get('value')) for e in mw])
             # publication order
@@ -190,6 +192,22 @@ class EpochRules:
             return None, prob
         return res, None
 
+    def collect_returns_back(self):
+        """CollectProtectedEpochs returns back() of its list parameter, read after the list was sorted and trimmed, on every path"""
+        f = self.F['CollectProtectedEpochs']
+        lst = ('deref', S('&' + f['params'][1]['name']))
+        ps = self.paths(f)
+        if not ps:
+            return False
+        for p in ps:
+            backs = [e for e in p.events if e['kind'] == 'call' and e.get('name') == 'back' and e.get('obj') == lst]
+            ers = [e for e in p.events if e['kind'] == 'call' and e.get('name') == 'erase' and e.get('obj') == lst]
+            r = p.ret
+            if not (backs and ers and backs[-1]['seq'] > ers[-1]['seq'] and (r == backs[-1]['result'] or r == ('deref', backs[-1]['result']) or
+                                                                              show(r) == show(('deref', backs[-1]['result'])))):
+                return False
+        return True
+
     def list_obj(self, p):
         """object path of the list ForwardGlobalEpoch obtains for next_epoch"""
         for e in p.events:
@@ -211,7 +229,8 @@ class EpochRules:
         for p in ps:
             ems = [e for e in p.events if e['kind'] == 'call' and e.get('obj') == lst and e.get('name') in ('emplace_back', 'push_back')]
             other = [e for e in p.events if e['kind'] == 'call' and e.get('obj') == lst and not e.get('const_method') and
-                     e.get('name') not in ('emplace_back', 'push_back', 'reserve', 'begin', 'end', 'rbegin', 'rend', 'cbegin', 'cend', 'crbegin', 'crend', 'erase', 'data', 'size')]
+                     e.get('name') not in ('emplace_back', 'push_back', 'reserve', 'begin', 'end', 'rbegin', 'rend', 'cbegin', 'cend', 'crbegin', 'crend', 'erase', 'data', 'size',
+                                           'back', 'front', 'at', 'operator[]', 'empty', 'capacity')]
             for e in other:
                 sink.bad('C04.SCAN', 'CollectProtectedEpochs %s on the list' % e['name'], self.loc(f, e['line']), 'unexpected mutation of the protected-epoch list')
             vals = [e['args'][0] if e['args'] else None for e in ems]
@@ -545,7 +564,9 @@ class EpochRules:
         ep = S('p:' + g['params'][0]['name'])
         for p in self.paths(g):
             at = [e for e in p.events if e['kind'] == 'call' and e.get('name') in ('at', 'operator[]')]
-            good = len(at) == 1 and at[0]['obj'][0] == 'field' and at[0]['obj'][2] == self.listsf and at[0]['args'] and at[0]['args'][0] == ('op', '&', ep, C(lo), 64)
+            # the list slot: epoch & lower mask, spelled as a mask, a remainder, or epoch - (epoch & upper mask)
+            idx_forms = (('op', '&', ep, C(lo), 64), ('op', '%', ep, C(cap), 64), ('op', '-', ep, ('op', '&', ep, C(up), 64), 64))
+            good = len(at) == 1 and at[0]['obj'][0] == 'field' and at[0]['obj'][2] == self.listsf and at[0]['args'] and at[0]['args'][0] in idx_forms
             if good:
                 nodev = at[0]['obj'][1]
                 # the node selected: last loop condition false on it
